@@ -279,11 +279,22 @@ def atie_part(ctx):
     if any(o.startswith("NOTYPE") for o in s.observed):
         ctx.violation("ostype", "MemFS built with -tags %s does not take the requested OS type" % TAG,
                       {"stream": desc("ostype", "ostype", TAG), "case": s.cases[0], "observed": s.observed[0]})
-    # panics on a missing volume (known finding), whatever else: the model predicts them, they are still defects
+    # panics on a missing volume (known finding): the fixed witness is replayed every run; the model predicts the
+    # panic too (it mirrors the nil dereference), which does not make it less of a defect
     e = next((k for k in ctx.kf if k["id"] == KF_UNC_PANIC), None)
-    if any(o.endswith("PANIC #-") or o.endswith("PANIC") for o in s.observed):
-        if e is not None:
-            ctx.known_finding(e["id"], e["what"])
+    if e is not None and e.get("witness"):
+        wrun = Stream(ctx, "ostype-witness", "ostype", replay_lines=[e["witness"]])
+        if wrun.ok:
+            ctx.coverage["streams"]["ostype-witness"] = {"case": e["witness"], "observed": wrun.observed[0], "model": wrun.model[0]}
+            if wrun.observed[0].split(" | ")[-1].startswith("PANIC"):
+                ctx.known_finding(e["id"], e["what"])
+            if wrun.mism:
+                report_model_mismatches(ctx, wrun, "the witness of the missing-volume panic behaves differently from the model (%d)")
+    panics = [(c, o) for c, o in zip(s.cases, s.observed) if o.split(" | ")[-1].startswith("PANIC")]
+    if panics and e is None:
+        c, o = panics[0]
+        ctx.violation("ostype", "a call on a Windows-typed MemFS panics (%d histories)" % len(panics),
+                      {"stream": desc("ostype", "ostype", TAG), "case": " | ".join(c.split(" | ")[:len(o.split(" | ")) + 1]), "observed": o})
     # the Linux-typed histories on the untagged build: same answers as the model, hence as the tagged build
     u = Stream(ctx, "ostype-notag", "ostype", tags="", replay_lines=lin)
     if not u.ok:
